@@ -18,6 +18,12 @@ Inductive sev :=
 | SDefaultDeadline (id : nat)                 (* a survey called with a context WITHOUT deadline: the library's own
                                                  default deadline (defaultSurveyTimeout) has passed *)
 | SHang (id : nat)                            (* ... and the survey did not return within the default deadline + 3 s *)
+(* stress class: the driver does NOT wait for the collector between injections *)
+| SDeliverND (uid : N) (id : nat) (v : N)     (* a response handed to the control handler; no wait afterwards *)
+| SYield (id : nat)                           (* the driver now lets the collector of survey id run until its channel is empty *)
+| SStall (id : nat)                           (* survey id has not returned 300 ms after the last input *)
+| SCollected (id : nat) (k : nat)             (* the collector of survey id received k more responses before it stopped *)
+| SLocalBlocked (id : nat)                    (* the local handler's callback was invoked and has not returned after 300 ms *)
 | SReturn (id : nat) (res : list (N * N)) (err : bool) (prompt : bool).
                                               (* Survey returned: results sorted by uid, error <> nil, returned within the bound *)
 
@@ -27,6 +33,12 @@ Fixpoint drain (fuel : nat) (st : nst) (id : nat) : nst :=
   match fuel with
   | 0 => st
   | S f => match sstep st (LCollect id) with Some st1 => drain f st1 id | None => st end
+  end.
+
+Fixpoint collect_k (k : nat) (st : nst) (id : nat) : option nst :=
+  match k with
+  | 0 => Some st
+  | S k' => match sstep st (LCollect id) with Some st1 => collect_k k' st1 id | None => None end
   end.
 
 Fixpoint ins_res (e : N * N) (l : list (N * N)) : list (N * N) :=
@@ -43,24 +55,67 @@ Fixpoint res_eqb (a b : list (N * N)) : bool :=
   | _, _ => false
   end.
 
-Fixpoint s_run (st : nst) (evs : list sev) : bool :=
+(* [hot]: surveys whose parked collector has already been handed a response in the current burst *)
+Definition already (st : nst) (id : nat) (uid : N) : bool :=
+  match find_sv (n_surveys st) id with
+  | Some s => existsb (fun r => N.eqb (r_uid r) uid) (s_accepted s)
+  | None => false
+  end.
+Definition returned (st : nst) (id : nat) : bool :=
+  match find_sv (n_surveys st) id with
+  | Some s => match s_phase s with Returned => true | _ => false end
+  | None => false
+  end.
+
+(* [fixed]: replay for a node whose handleSurveyResponse ignores a second response of a node to the same
+   survey and whose local reply gives up once Survey has returned (the fix proposed for the two findings
+   of the stress class); corr accepts either behaviour until the model is switched over. *)
+Fixpoint s_run (fixed : bool) (hot : list nat) (st : nst) (evs : list sev) : bool :=
   match evs with
   | [] => true
   | e :: evs' =>
       match e with
-      | SStart num local => match sstep st (LStart num local) with Some st1 => s_run st1 evs' | None => false end
-      | SLocal id => match sstep st (LLocal id) with Some st1 => s_run (drain 20 st1 id) evs' | None => false end
-      | SHandlerDone id => match sstep st (LHandlerDone id) with Some st1 => s_run (drain 20 st1 id) evs' | None => false end
-      | SDeliver uid id v => match sstep st (LDeliver uid id v) with Some st1 => s_run (drain 20 st1 id) evs' | None => false end
-      | SCancel id | SDefaultDeadline id => match sstep st (LCancel id) with Some st1 => s_run st1 evs' | None => false end
+      | SStart num local => match sstep st (LStart num local) with Some st1 => s_run fixed [] st1 evs' | None => false end
+      | SLocal id => if fixed && returned st id then s_run fixed [] st evs' else
+                     match sstep st (LLocal id) with Some st1 => s_run fixed [] (drain 20 st1 id) evs' | None => false end
+      | SHandlerDone id => match sstep st (LHandlerDone id) with Some st1 => s_run fixed [] (drain 20 st1 id) evs' | None => false end
+      | SDeliver uid id v => if fixed && already st id uid then s_run fixed [] st evs' else
+                             match sstep st (LDeliver uid id v) with Some st1 => s_run fixed [] (drain 20 st1 id) evs' | None => false end
+      | SCancel id | SDefaultDeadline id => match sstep st (LCancel id) with Some st1 => s_run fixed hot st1 evs' | None => false end
       | SHang _ => false
+      | SDeliverND uid id v =>
+          (* the collector is parked in its select (the driver made sure of it before the burst): a send on
+             an empty channel is handed to it directly, i.e. it has received that response; everything
+             sent after that stays in the buffer until the driver yields *)
+          let direct := negb (existsb (Nat.eqb id) hot) &&
+                        match find_sv (n_surveys st) id with
+                        | Some s => match s_phase s, s_buf s with Collecting, [] => true | _, _ => false end
+                        | None => false
+                        end in
+          if fixed && already st id uid then s_run fixed hot st evs' else
+          match sstep st (LDeliver uid id v) with
+          | Some st1 => s_run fixed (id :: hot) (if direct then drain 1 st1 id else st1) evs'
+          | None => false
+          end
+      | SYield id => s_run fixed [] (drain 20 st id) evs'
+      | SStall id =>
+          match find_sv (n_surveys st) id with
+          | Some s => match s_phase s with Collecting => s_run fixed [] st evs' | _ => false end
+          | None => false
+          end
+      | SCollected id k =>
+          (* the driver computes k from what is left in a channel it assumes was filled by its burst;
+             with duplicates ignored there may be less to collect *)
+          if fixed then s_run fixed [] (drain k st id) evs'
+          else match collect_k k st id with Some st1 => s_run fixed [] st1 evs' | None => false end
+      | SLocalBlocked id => match sstep st (LLocal id) with None => s_run fixed [] st evs' | Some _ => false end
       | SReturn id res err _ =>
           let st0 := match sstep st (LDeadline id) with Some st1 => st1 | None => st end in
           match sstep st0 (LReturn id) with
           | Some st1 =>
               match find_sv (n_surveys st1) id with
               | Some s => match s_ret s with
-                          | Some (r, e) => res_eqb (sort_res r) res && Bool.eqb e err && s_run st1 evs'
+                          | Some (r, e) => res_eqb (sort_res r) res && Bool.eqb e err && s_run fixed [] st1 evs'
                           | None => false
                           end
               | None => false
@@ -70,12 +125,13 @@ Fixpoint s_run (st : nst) (evs : list sev) : bool :=
       end
   end.
 
-Definition corr (c : case) : bool := s_run n_init (c_evs c).
+Definition corr (c : case) : bool := s_run false [] n_init (c_evs c) || s_run true [] n_init (c_evs c).
 
 (* ---- the property on the log ---- *)
 (* per survey: number of expected nodes, responses delivered to it while it was open (uid, value, in
    order), cancelled?, returned? *)
-Record osv := mkOsv { o_num : nat; o_got : list (N * N); o_cancelled : bool; o_returned : bool; o_local : option N }.
+Record osv := mkOsv { o_num : nat; o_got : list (N * N); o_cancelled : bool; o_returned : bool; o_local : option N;
+                      o_nd : bool (* some response was injected without waiting for the collector *) }.
 
 Fixpoint ofind (l : list (nat * osv)) (id : nat) : option osv :=
   match l with [] => None | (i, s) :: l' => if i =? id then Some s else ofind l' id end.
@@ -113,13 +169,13 @@ Fixpoint o_walk (next : nat) (svs : list (nat * osv)) (evs : list sev) : bool :=
   | [] => true
   | e :: evs' =>
       match e with
-      | SStart num local => o_walk (S next) ((S next, mkOsv num [] false false local) :: svs) evs'
+      | SStart num local => o_walk (S next) ((S next, mkOsv num [] false false local false) :: svs) evs'
       | SHandlerDone _ => o_walk next svs evs'
       | SLocal id =>
           match ofind svs id with
           | Some s => match o_local s with
                       | Some v => o_walk next ((id, mkOsv (o_num s) (if o_returned s then o_got s else o_got s ++ [(0%N, v)])
-                                                          (o_cancelled s) (o_returned s) None) :: svs) evs'
+                                                          (o_cancelled s) (o_returned s) None (o_nd s)) :: svs) evs'
                       | None => false
                       end
           | None => false
@@ -127,15 +183,30 @@ Fixpoint o_walk (next : nat) (svs : list (nat * osv)) (evs : list sev) : bool :=
       | SDeliver uid id v =>
           match ofind svs id with
           | Some s => o_walk next ((id, mkOsv (o_num s) (if o_returned s then o_got s else o_got s ++ [(uid, v)])
-                                              (o_cancelled s) (o_returned s) (o_local s)) :: svs) evs'
+                                              (o_cancelled s) (o_returned s) (o_local s) (o_nd s)) :: svs) evs'
           | None => o_walk next svs evs'        (* a foreign id: must simply be ignored *)
+          end
+      | SDeliverND uid id v =>
+          match ofind svs id with
+          | Some s => o_walk next ((id, mkOsv (o_num s) (if o_returned s then o_got s else o_got s ++ [(uid, v)])
+                                              (o_cancelled s) (o_returned s) (o_local s) true) :: svs) evs'
+          | None => o_walk next svs evs'
           end
       | SCancel id | SDefaultDeadline id =>
           match ofind svs id with
-          | Some s => o_walk next ((id, mkOsv (o_num s) (o_got s) true (o_returned s) (o_local s)) :: svs) evs'
+          | Some s => o_walk next ((id, mkOsv (o_num s) (o_got s) true (o_returned s) (o_local s) (o_nd s)) :: svs) evs'
           | None => false
           end
       | SHang _ => false        (* "or the deadline passed": a survey must terminate *)
+      | SYield _ | SCollected _ _ => o_walk next svs evs'
+      | SStall id =>
+          (* "returns as soon as every expected node answered": not returning is only allowed while
+             fewer than numNodes distinct nodes have answered *)
+          match ofind svs id with
+          | Some s => negb (o_num s <=? length (distinct (map fst (o_got s)) [])) && o_walk next svs evs'
+          | None => false
+          end
+      | SLocalBlocked _ => false   (* "late ... responses never block" *)
       | SReturn id res err prompt =>
           match ofind svs id with
           | Some s =>
@@ -150,8 +221,10 @@ Fixpoint o_walk (next : nat) (svs : list (nat * osv)) (evs : list sev) : bool :=
                  was cancelled as well; not complete: it may only return because the deadline passed *)
               (if complete then (length res =? o_num s) && (negb err || o_cancelled s)
                else o_cancelled s && err &&
-                    forallb (fun k => existsb (fun e => N.eqb (fst e) k) res) (distinct (map fst cnt) [])) &&
-              o_walk next ((id, mkOsv (o_num s) (o_got s) (o_cancelled s) true (o_local s)) :: svs) evs'
+                    (* every node heard before the cancellation is in the result (when the driver waited for
+                       the collector after each response; otherwise a response may race with the deadline) *)
+                    (o_nd s || forallb (fun k => existsb (fun e => N.eqb (fst e) k) res) (distinct (map fst cnt) []))) &&
+              o_walk next ((id, mkOsv (o_num s) (o_got s) (o_cancelled s) true (o_local s) (o_nd s)) :: svs) evs'
           | None => false
           end
       end
